@@ -5,7 +5,8 @@
          Chol _ true      (CholLinearOperator(upper=True): _matmul computes R R^T, the meaning is R^T R)
          Zero (_ :: _)    (ZeroLinearOperator with a batch shape: _matmul drops the operator's batch shape)
        both refuted in Property.v (C01_chol_upper_refuted, C01_zero_batch_refuted).
-   NOT covered (yet): Mul, BatchRepeat, Cat, Interpolated — their [mm] is the specification (Model.spec_mm). *)
+   NOT covered (yet): Permutation (code transcribed, inverse-permutation lemma missing); Mul, BatchRepeat and Cat along a
+   batch dimension (their [mm] is the specification, Model.spec_mm). *)
 From Coq Require Import List ZArith Bool Arith.
 Import ListNotations.
 Require Import C01.Sums C01.Batch C01.Tensor C01.OpExpr.
@@ -13,18 +14,16 @@ Require Import C01.Sums C01.Batch C01.Tensor C01.OpExpr.
 Fixpoint coveredb (e : OpExpr) : bool :=
   match e with
   | Dense _ | UserMinimal _ | Diag _ | ConstantDiag _ _ | Identity _ _ | Toeplitz _ | Triangular _ _ => true
-  | Kernel _ _ _ => true
-  | Permutation _ | TransposePermutation _ => false
+  | Kernel _ _ _ | TransposePermutation _ => true
+  | Permutation _ => false
   | Zero b _ _ => match b with [] => true | _ :: _ => false end
   | Chol _ u => negb u
   | Root r | LowRankRoot r => coveredb r
-  | Kron ops | KronTriangular ops _ | Sum ops | PsdSum ops => forallb coveredb ops
-  | KronDiag ops => false
+  | Kron ops | KronTriangular ops _ | Sum ops | PsdSum ops | KronDiag ops => forallb coveredb ops
   | KronAddedDiag a b | SumKron a b | AddedDiag a b | LowRankRootAddedDiag a b | Matmul a b => coveredb a && coveredb b
-  | BlockDiag b => coveredb b && negb (is_diag_cls b)
-  | ConstantMul b _ | BlockInterleaved b | SumBatch b => coveredb b
-  | Masked b _ _ => false
-  | Mul _ _ | BatchRepeat _ _ | Cat _ _ | Interpolated _ _ _ _ _ => false
+  | ConstantMul b _ | BlockDiag b | BlockInterleaved b | SumBatch b | Masked b _ _ | Interpolated b _ _ _ _ => coveredb b
+  | Cat ops d => match d with CatBatch _ => false | _ => forallb coveredb ops end
+  | Mul _ _ | BatchRepeat _ _ => false
   end.
 
 Definition covered (e : OpExpr) : Prop := coveredb e = true.
